@@ -14,17 +14,31 @@ MANIFEST = dict(
          "Every entry point (modelled or not) is driven under ASan/UBSan/LSan on structured, mutated, every-length and random buffers with an accessor sweep. "
          "The list of entry points is regenerated from the clang AST of the headers on every run (every public constructor / static / member / "
          "free function taking const uint8_t* + size, 128 today); theorem entry_points_covered (by decide) demands a disposition (Lean model + "
-         "theorem | harness | not a parser) for each, and harness/c01_entry.cpp calls every one that is not `not a parser`.",
+         "theorem | harness | not a parser) for each, and harness/c01_entry.cpp calls every one that is not `not a parser`. "
+         "Raw-site tie: translator/gen_rawsites.py regenerates, from the clang AST of every src/**/*.cpp and of every header, the list of raw memory "
+         "access sites (pointer dereference / subscript / member access through a cast pointer / memcpy, memcmp, memset, std::copy and other foreign "
+         "calls with raw pointer operands / pointer casts / pointer arithmetic / hand-over of a raw pointer to another function) and of the conditions "
+         "(guards) of every function reachable by name from the entry points and option decoders, keyed by function + kind + normalised expression "
+         "text; theorems raw_sites_covered and raw_guards_present (decide +kernel) demand, for every site, a disposition in Wire/RawCoverage.lean "
+         "(the Lean model function that mirrors it with a fault-explicit read and its safety theorem | why it cannot leave the buffer) and that every "
+         "bounds check a disposition cites is still in the source: a raw access added to a parser, or a guard removed from one — neither of which "
+         "changes any Lean model — is reported with the function and the expression, after a search directed at the entry points that reach it. "
+         "Wire/Raw/*.lean mirrors the typed option decoders that walk a raw pointer (ICMPv6, 802.11 management, IP route options, DHCPv6 class data, "
+         "extract_metadata, sum_range, crc32, hw_address_to_string) statement for statement and proves raw decoder = total decoder for all byte strings "
+         "(raw_decoders_safe_*).",
     note="The theorems are about hand-written, code-shaped Lean models of 53 entry classes in seven families (link layers, IPv4 + options / AH / ESP, "
          "IPv6 + extension headers, TCP + options / UDP, ICMP / ICMPv6 + extensions, DHCP / DHCPv6 / BootP / RTP / VXLAN / ARP / STP, 802.11 / "
          "RadioTap / EAPOL; list in the evidence: modelled_classes); the tie to the C++ is differential correspondence of every line under "
          "ASan/UBSan/LSan plus the Lean spec oracle evaluated on the implementation's own output; DNS as an entry class and the paths "
          "the model cannot express (host routing table in IP::prepare_for_serialize, EAPOL null result) get the implementation-side oracle "
-         "only (evidence: unmodelled_lines). Trusted: Lean kernel + propext/Classical.choice/Quot.sound, the models, harness, generators, "
-         "translator/gen_tags.py, translator/gen_entrypoints.py and the hand-maintained disposition table Wire/Coverage.lean; allocator / lifetime "
-         "behaviour is observed by the sanitizers, not proved.",
-    technique="Lean 4 proof over executable byte-level models + model/impl correspondence + spec oracle on impl output",
-    design="DESIGN.md §6 C01, §11.2")
+         "only (evidence: unmodelled_lines). The raw-site tie is syntactic: a site is function + kind + expression text + number of occurrences, the "
+         "parse path is an over-approximation by name, and the `argued` rows of the disposition table (evidence: raw_sites_argued; mostly the "
+         "hand-over of an unmodified (pointer, size) pair, of the rest of a stream, of an option's own data) are arguments, not theorems; std::vector / "
+         "std::string element access and C strings are outside it. Trusted: Lean kernel + propext/Classical.choice/Quot.sound, the models, harness, generators, "
+         "translator/gen_tags.py, translator/gen_entrypoints.py, translator/gen_rawsites.py and the hand-maintained disposition tables Wire/Coverage.lean, "
+         "Wire/RawCoverage.lean; allocator / lifetime behaviour is observed by the sanitizers, not proved.",
+    technique="Lean 4 proof over executable byte-level models + model/impl correspondence + spec oracle on impl output + AST-regenerated coverage tables (entry points, raw sites, guards) decided in the kernel",
+    design="DESIGN.md §6 C01, §11.2, §11.6, §11.7; lean/TinsModel/Wire/RawCoverage.lean (raw-site tie)")
 
 
 def gen_stream_ops(rng, ncases):
@@ -349,9 +363,9 @@ def raw_status(chk, raw, build_ok):
             st["new"].append((fn, kind, expr, k.strip()))
     m = re.search(r"GUARDS CITED BY[^:]*: (.*?) ;;END", text, re.S)
     if m:
-        for k in m.group(1).split(" ;; "):
-            fn, kind, expr = split_key(k.strip())
-            st["gone"].append((fn, expr, k.strip()))
+        for k in dict.fromkeys(x.strip() for x in m.group(1).split(" ;; ")):      # a guard cited by several rows is named once
+            fn, kind, expr = split_key(k)
+            st["gone"].append((fn, expr, k))
     m = re.search(r"translator defect[^\n]*", text)
     if m:
         st["other"].append(m.group(0)[:600])
